@@ -276,6 +276,23 @@ Plan genDPlacer(const std::string &profile, uint64_t seed, int tier) {
     }
     p.gops.push_back(g);
   }
+  // histories of single moves on the row data structure (feasible swaps and
+  // insertions whatever their gain, and the placer's own try* moves)
+  if (ro.chance(0.5)) {
+    int nMoves = (int)ro.range(1, tier ? 60 : 25);
+    std::vector<GOp> moves;
+    for (int i = 0; i < nMoves; ++i) {
+      GOp g;
+      static const char *names[] = {"fswap", "finsert", "tswap", "tinsert"};
+      g.name = names[ro.below(4)];
+      g.a = {(long long)ro.below(1000), (long long)ro.below(1000), (long long)ro.below(1000)};
+      moves.push_back(g);
+    }
+    // interleave: moves first, passes after, or mixed
+    if (ro.chance(0.5)) p.gops.insert(p.gops.begin(), moves.begin(), moves.end());
+    else
+      for (auto &m : moves) p.gops.insert(p.gops.begin() + ro.below(p.gops.size() + 1), m);
+  }
   return p;
 }
 
